@@ -21,16 +21,16 @@ CHECKS = {
           "Pre-existing content x open mode x pattern or multi-chunk encoder x single-threaded appends checked through a fresh handle after every call x concurrent phases of 2-8 threads in which designated records park between two chunks inside the appender's critical section while a reader samples the file; the file must be exactly pre-existing ++ acknowledged records, whole, per-thread ordered.",
           "OS scheduler not controlled: interleavings are amplified, not enumerated.", "DESIGN.md §3 C04"),
   "C05": ("exploration", PBT + " of operation histories (append/restart/clock advance/concurrent burst) over triggers x rollers, oracle = suffix-of-acknowledged-stream invariant",
-          "Histories over size/on-start-up/time (guarded clock)/user-defined pre- and post-processing triggers and delete/fixed-window rollers (plain, gz, zst, directory patterns); after every operation every retained file must parse into whole self-delimiting records and archives oldest-to-newest plus the active file must be a gap-free suffix of the acknowledged stream, records disappearing only from a full window.",
+          "Histories over size/on-start-up/time (guarded clock)/user-defined pre- and post-processing triggers and delete/fixed-window rollers (plain, gz, zst, directory patterns), both open modes, optionally a user-defined roller that fails on scripted calls, foreground and background-rotation builds; after every operation every retained file must parse into whole self-delimiting records and archives oldest-to-newest plus the active file must be a gap-free suffix of the acknowledged stream, records disappearing only from a full window.",
           "Hook H1 (clock). Bursts are real threads (scheduler not controlled).", "DESIGN.md §3 C05"),
   "C06": ("exploration", PBT + " of append histories with sizes chosen relative to the limit; observing Policy wrapper; oracle = exact size model",
           "Limits incl. 0, pre-existing files around the limit, both open modes, restarts, multi-byte payloads, multi-chunk encoder: at every policy consultation len_estimate == on-disk size == model size, rotation iff size > N, archive content == rolled content.",
           "Foreground rotation build.", "DESIGN.md §3 C06"),
   "C07": ("exploration", PBT + " of roller configurations x initial directory states x roll sequences; oracle = full recursive snapshot model",
-          "Bases incl. u32::MAX-count+1, counts 0-6, 12 patterns (index in name/directory/twice, $ENV, gz/zst), initial windows with gaps/outside-window archives/bystanders, 1-10 rolls; exact shift for gap-free windows, charitable ordered-list relation with gaps, nothing outside the managed names touched.",
+          "Bases incl. u32::MAX-count+1, counts 0-6, 14 patterns (index in name/directory/twice, $ENV incl. a value containing '{}', gz/zst), initial windows with gaps/outside-window archives/bystanders, 1-10 rolls, rolled file optionally on another filesystem (copy fallback), foreground and background-rotation builds; exact shift for gap-free windows, charitable ordered-list relation with gaps, nothing outside the managed names touched.",
           "Archive names computed by the harness's own $ENV expander.", "DESIGN.md §3 C07"),
   "C08": ("fault_enumeration", PBT + " of histories, each expanded into every (rotation, step) x {injected error, crash image} plus hook-free obstacle directories",
-          "For every generated history the check first learns its rotations, then enumerates each archive shift and the final move/compress of each rotation as the point of failure (guarded step callback returning Err) and as the point of process death (directory image + restart), and places obstacle directories without hooks; after every append and on every image the stream/retention oracles must hold, the failing append must return Err without panicking, and the appender must recover.",
+          "For every generated history the check first learns its rotations, then enumerates each archive shift and the final move/compress of each rotation as the point of failure (guarded step callback returning Err) and as the point of process death (directory image + restart), and places obstacle directories and dangling directory symlinks without hooks, with the active file optionally on another filesystem; after every append and on every image the stream/retention oracles must hold, the failing append must return Err without panicking, and the appender must recover.",
           "Hooks H2 (step callback) and H1; crash = directory image between steps (page cache intact), fsync not modelled.", "DESIGN.md §3 C08"),
   "C09": ("exploration", PBT + " of pattern ASTs printed to strings, under both build profiles; oracle = reference renderer computed from the AST; alias metamorphic relation",
           "Patterns are generated as ASTs over the documented grammar and printed; output for generated records (Unicode, absent fields, MDC, multi-piece messages, short writes, named threads) must equal render(AST, record), styles balanced, alias-flipped pattern identical; sub-second dates are cut out and parsed back into the encode bracket.",
@@ -38,8 +38,8 @@ CHECKS = {
   "C10": ("exploration", PBT + " of width specs with text lengths chosen around m and M and scripted short writes; oracle = pad(first_M_chars) plus raw-byte assertions",
           "Single-formatter cases assert on the raw bytes valid UTF-8, <= M and >= m characters and equality with the law; nested cases (spec probability 0.9, depth <= 4) compare with the compositional reference.",
           "m <= M (statement's domain).", "DESIGN.md §4 C10"),
-  "C11": ("exploration", "exhaustive enumeration of all strings over the 14 syntax symbols up to a length bound + " + PBT + " of valid-prefix/breaker/suffix and token soup, under both build profiles; oracle = catch_unwind + prefix rendering + error marker",
-          "No construction or encoding of any enumerated or generated string may unwind; for a generated valid prefix followed by a known breaker the output must start with the reference rendering of the prefix and then show {ERROR: (or encode returns Err).",
+  "C11": ("exploration", "exhaustive enumeration of all strings over the 14 syntax symbols up to a length bound and of all strftime directives + " + PBT + " of valid-prefix/breaker/suffix and token soup + coverage-guided fuzzing (thorough), under both build profiles; oracle = catch_unwind + differential against a reference parser of the documented grammar (well-formed => reference rendering, malformed => error marker after the rendered prefix)",
+          "No construction or encoding of any enumerated or generated string may unwind; every string is classified by a reference parser written from the documentation: well-formed strings must render exactly their meaning (no false error), malformed ones must show {ERROR: (or return Err) after the rendering of their valid top-level prefix; the same for a generated valid prefix followed by a known breaker.",
           "Widths above 4096 are constructed but not encoded (statement's sanity bound).", "DESIGN.md §4 C11"),
   "C12": ("exploration", PBT + " of records with adversarial strings; oracle = independent strict RFC 8259 parser + field-by-field round trip",
           "One line, no raw control byte, strict parse (own parser, cross-checked with serde_json), every documented field equal to the record, absent optional fields omitted, no undocumented key.",
